@@ -42,10 +42,14 @@ def cases(shard, tier):
                 yield [lens, dt, k, u, "reduce_keepdims"]
         if dt in ("float32", "float64"):
             # +-inf (exact and order-independent inside a row): a row's result must not depend on the rows before it
-            for op in ("sum", "prod", "max", "min", "mean", "any"):
+            for op in ("sum", "prod", "max", "min", "mean", "any", "argmax", "argmin"):
                 for form in ("method", "keepdims", "none"):
                     yield [lens, dt, "inf", op, form]
             yield [lens, dt, "inf", "add", "reduce"]
+            # decimal fractions: only for reductions that SELECT an element / an index (their result is exact whatever the values)
+            for op in ("max", "min", "argmax", "argmin"):
+                for form in ("method", "func"):
+                    yield [lens, dt, "dec", op, form]
 
 
 def _close(a, b, dts):
@@ -75,7 +79,9 @@ def check(case, acc):
             acc.feature("consecutive_empty_rows")
         if size == 0:
             acc.feature("all_rows_empty")
-    if k == "inf":
+    if k == "dec":
+        flat = np.array(([0.7, 0.3, 0.9, 0.1, 1e17, -0.2, 2.6, 1e-9] * (size // 8 + 1))[:size], dtype=dt)
+    elif k == "inf":
         acc.feature("float_inf_pattern")
         flat = np.array(([1.5, float("inf"), 0.25, -2.0, 4.0, float("-inf"), 0.5, 3.0] * (size // 8 + 1))[:size], dtype=dt)
     else:
